@@ -239,6 +239,14 @@ class Case:
 
 # ---------------------------------------------------------------------- fault injection
 
+RUNAWAY_OPS = 4000
+
+
+class Runaway(BaseException):
+    """Raised by the injector into a call that has issued an absurd number of file operations (not an Exception:
+    the code under test must not swallow it in a retry loop's `except Exception`)."""
+
+
 class FaultInjector:
     wants_write_ops = True
 
@@ -258,8 +266,19 @@ class FaultInjector:
 
     def pre(self, op):
         self.n += 1
+        if self.n > RUNAWAY_OPS:
+            # decided on logical steps, not on time: a call that needs ~50 file operations and has issued thousands since
+            # a failure was injected is retrying without bound
+            raise Runaway(f"{self.n} intercepted file operations in one call")
         self.ops.append(op)
         if op.kind not in FAULT_KINDS or not probe.under(self.root, op.path):
+            return
+        if self.n == self.site and self.code == "VANISH":
+            if op.kind == "rename" and probe.is_private_tmp(self.root, op.path) and os.path.isfile(op.path):
+                self.fired = op
+                self.injections += 1
+                with probe.suspended():
+                    os.remove(op.path)      # the real rename now fails with a genuine, persistent ENOENT
             return
         if self.n == self.site:
             self.fired = op
@@ -351,11 +370,19 @@ def run_fault(case, site, code, persistent):
     inj = FaultInjector(case.rundir, site, code, persistent)
     probe.install()
     probe.set_controller(inj)
+    runaway = None
     try:
         out, _e = env.execute(case.call)
+    except Runaway as r:
+        runaway = str(r)
+        out = Outcome(False, exc=RuntimeError("call aborted by the harness: " + runaway))
     finally:
         probe.clear_controller()
     probs = []
+    if runaway is not None:
+        return {"outcome": out, "problems": [("call-does-not-terminate", {"after_fault_at": inj.fired.describe(case.rundir) if inj.fired else None,
+                                                                         "operations_issued": inj.n})],
+                "fired": inj.fired, "injector": inj}
     if inj.fired is None:
         return {"outcome": out, "problems": [], "fired": None, "injector": inj}
     a = case.abstract(case.rundir)
